@@ -58,6 +58,31 @@ func internalHelperEntry(p *Prog, typ *types.Named, method string) bool {
 	return true
 }
 
+// implementsSharedContract: the type implements one of the module's own interfaces whose values the
+// middlewares call from concurrent requests without any lock of their own (cookie codecs, source and
+// rate extractors, error handlers, side effects). The lockset engine does not descend into such calls
+// ("concurrency-safe by contract"); the module's implementations of the contract are therefore checked
+// here as roots of their own: their methods must not write receiver state unsynchronised.
+func implementsSharedContract(p *Prog, n *types.Named) bool {
+	for _, spec := range [][2]string{
+		{"roundrobin/stickycookie", "CookieValue"}, {"utils", "SourceExtractor"}, {"utils", "ErrorHandler"},
+		{"ratelimit", "RateExtractor"}, {"cbreaker", "SideEffect"},
+	} {
+		in := p.Named(spec[0], spec[1])
+		if in == nil {
+			continue
+		}
+		it, ok := in.Underlying().(*types.Interface)
+		if !ok {
+			continue
+		}
+		if types.Implements(n, it) || types.Implements(types.NewPointer(n), it) {
+			return true
+		}
+	}
+	return false
+}
+
 func hasMutexField(n *types.Named) bool {
 	return len(fieldsOfType(n, func(t types.Type) bool {
 		return typeIs(t, "sync", "Mutex") || typeIs(t, "sync", "RWMutex")
@@ -85,7 +110,7 @@ func c09RootTypes(p *Prog) []*types.Named {
 				continue
 			}
 			serve := p.MethodOf(n, "ServeHTTP")
-			if (serve != nil && p.InModule(serve)) || hasMutexField(n) {
+			if (serve != nil && p.InModule(serve)) || hasMutexField(n) || implementsSharedContract(p, n) {
 				out = append(out, n)
 			}
 		}
@@ -121,6 +146,7 @@ func runC09(p *Prog, r *Report) {
 	r.Floor("C09.R4", lockOpsOf(p, roots), 40, "lock acquisitions on call paths from entry points")
 	nLocks := c09Pairing(p, r, "C09.R3", "")
 	r.Floor("C09.R3", nLocks, 25, "lock acquisitions")
+	r.Floor("C09.R7", c09GetOrCreate(p, r, "C09.R7", roots), 2, "get-or-create insertions into shared maps")
 	limiterSerial(p, r, "C09.R6") // no update of a source's buckets is lost: get-or-create is one critical section
 	r.Floor("C09.R5", checkSnapshots(p, r, "C09.R5", nil), 4, "snapshot methods (Clone / Export) in memmetrics")
 }
@@ -375,4 +401,91 @@ func mutantsC09() []Mutant {
 		{Name: "clone-shallow", File: "memmetrics/counter.go", Old: "\tother := &RollingCounter{\n\t\tresolution:  c.resolution,\n\t\tvalues:      make([]int, len(c.values)),\n\t\tlastBucket:  c.lastBucket,\n\t\tlastUpdated: c.lastUpdated,\n\t}\n\tcopy(other.values, c.values)\n\treturn other\n", New: "\tother := *c\n\treturn &other\n", Expect: "C09.R5"},
 		{Name: "lookup-outside-mutex", File: "ratelimit/tokenlimiter.go", Old: "\ttl.mutex.Lock()\n\tdefer tl.mutex.Unlock()\n\n\teffectiveRates := tl.resolveRates(req)\n\tbucketSetI, exists := tl.bucketSets.Get(source)\n", New: "\teffectiveRates := tl.resolveRates(req)\n\tbucketSetI, exists := tl.bucketSets.Get(source)\n\n\ttl.mutex.Lock()\n\tdefer tl.mutex.Unlock()\n", Expect: "C09.R6"},
 	}
+}
+
+// c09GetOrCreate (R7): "no counter update is lost". A method that inserts into a map field of a shared
+// object after looking the key up (get-or-create) must make the insertion on the not-found edge of a
+// lookup made in the SAME critical section: if the lock was released between the look-up that found
+// nothing and the insertion, two concurrent first sightings of a key each insert their own object and
+// one of them (with the updates it already holds) is lost — no data race, every access is locked.
+func c09GetOrCreate(p *Prog, r *Report, rule string, roots []*types.Named) int {
+	n := 0
+	for _, typ := range roots {
+		tn := shortType(typ)
+		for _, m := range p.Methods(typ) {
+			if m.Blocks == nil {
+				continue
+			}
+			for _, b := range m.Blocks {
+				for _, in := range b.Instrs {
+					mu, ok := in.(*ssa.MapUpdate)
+					if !ok {
+						continue
+					}
+					ml, ok := stripConv(mu.Map).(*ssa.UnOp)
+					if !ok {
+						continue
+					}
+					_, fld, base, ok := fieldOf(ml.X)
+					if !ok || len(m.Params) == 0 || base != ssa.Value(m.Params[0]) {
+						continue
+					}
+					// comma-ok lookups of the same key in the same map field
+					var looks []*ssa.Lookup
+					for _, b2 := range m.Blocks {
+						for _, in2 := range b2.Instrs {
+							lk, ok := in2.(*ssa.Lookup)
+							if !ok || !lk.CommaOk || !sameValue(lk.Index, mu.Key) {
+								continue
+							}
+							if l2, ok := stripConv(lk.X).(*ssa.UnOp); ok {
+								if _, f2, b2v, ok := fieldOf(l2.X); ok && f2 == fld && b2v == base {
+									looks = append(looks, lk)
+								}
+							}
+						}
+					}
+					if len(looks) == 0 {
+						continue // plain overwrite / counter update, no get-or-create
+					}
+					n++
+					good := false
+					for _, lk := range looks {
+						guards := false
+						for _, t := range BoolTests(m, func(v ssa.Value) bool {
+							e, ok := v.(*ssa.Extract)
+							return ok && e.Tuple == ssa.Value(lk) && e.Index == 1
+						}) {
+							if OnlyViaEdge(m, mu, t.False) {
+								guards = true
+							}
+						}
+						if !guards {
+							continue
+						}
+						left := false
+						for x := range Reach(m, lk, nil, nil) {
+							cc := CallCommonOf(x)
+							if cc == nil {
+								continue
+							}
+							if _, isCall := x.(*ssa.Call); !isCall {
+								continue
+							}
+							if op, ok := lockOp(cc); ok && (op == "unlock" || op == "runlock") && Reach(m, x, nil, nil)[mu] {
+								left = true
+							}
+						}
+						if !left {
+							good = true
+						}
+					}
+					r.Paths++
+					r.Check(good, rule, fmt.Sprintf("%s.%s: insertion into %s on the not-found edge of a look-up in the same critical section", tn, m.Name(), fld), p.InstrPos(mu),
+						"guarded by a comma-ok lookup of the same key with no unlock in between", "the insertion is not guarded by a look-up of the key made under the same lock acquisition (the lock is released between the check and the insertion, or there is no re-check): concurrent first sightings overwrite each other's entry and the updates it holds are lost")
+				}
+			}
+		}
+	}
+	return n
 }
